@@ -94,7 +94,29 @@ def check(run):
             twin = nodes[:j] + [":".join(f)] + nodes[j + 1:]
             tline = f"{';'.join(twin)} {','.join(hex(o) for o in outs)} {','.join(info) or '-'} {';'.join(ins) or '-'}"
             seqs.append(["graph calc " + line, "graph calc " + tline, "graph calc " + line])
-    run.rules.append("random DAGs over every supported node kind (inputs, Montgomery constants incl. 0/1/253/254/p-1, all duo operators but Pow, Neg, ternary), 1..60 (thorough: 400) nodes, random declared input layouts (contiguous or with gaps, 0..4 named vectors, shuffled supply order), boundary/random input values, random output lists; evaluated by graph::evaluate, by calc_witness through serialize/deserialize_witnesscalc_graph, by the model's single pass and by the recursive reference interpretation; every seventh graph is re-evaluated after a twin of equal encoded length from the same (reused) buffer; containers written by the implementation are re-read and re-framed by the model; distinct = distinct op line")
+    # ---- every operator inside a graph on boundary operands (not only at random): tiny graphs `in1 op in2`, `in1 op const`, shifts
+    #      by every limb-boundary count of large operands — through graph::evaluate and through the container + calc_witness
+    from lib import gen as _gen
+    vals = [0, 1, 2, P - 1, (P - 1) // 2, (P + 1) // 2, 2**64, 2**130 + 5, 2**200 + 2**100 + 1] + _gen.MONTGOMERY_SMALL[:3]
+    for op in OPS:
+        pairs = [(a, b) for a in vals for b in vals] if not quick else [(rng.choice(vals), rng.choice(vals)) for _ in range(8)] + [(P - 1, P - 1), (2**200 + 2**100 + 1, 2)]
+        if op in ("Shl", "Shr"):
+            pairs = [(a, n) for a in (2**130 + 5, 2**200 + 2**100 + 1, P - 1, rand_fr(rng)) for n in (0, 1, 63, 64, 65, 127, 128, 129, 191, 192, 193, 252, 253, 254)]
+        for a, b in pairs:
+            nodes = ["I:0x0", "I:0x1", "I:0x2", f"D:{op}:0x1:0x2", f"M:{hex(b)}", f"D:{op}:0x1:0x4"]
+            seqs.append([f"graph eval {';'.join(nodes)} 0x1,{hex(a)},{hex(b)} 0x3,0x5"])
+            seqs.append([f"graph calc {';'.join(nodes)} 0x3,0x5 a:0x1:0x1,b:0x2:0x1 a={hex(a)};b={hex(b)}"])
+    # ---- input blocks that are not the dense list 0..n-1: gaps, other orders, repeated indices (the buffer must be sized by the largest
+    #      index, and every declared position must be reachable)
+    for blk in ([0, 2, 1], [0, 3], [0, 1, 1], [2, 0], [0, 1, 5, 2], [3], [0, 4, 4, 1]):
+        m = max(blk)
+        nodes = [f"I:{hex(i)}" for i in blk] + [f"D:Add:0x0:{hex(len(blk) - 1)}", f"D:Mul:{hex(len(blk))}:{hex(len(blk) - 1)}"]
+        total = len(nodes)
+        vals = [rng.choice([1, 2, P - 1, rand_fr(rng)]) for _ in range(m + 1)]
+        seqs.append([f"graph eval {';'.join(nodes)} {','.join(hex(v) for v in [1] + vals[1:])} {hex(total - 1)},{hex(total - 2)}"])
+        if m >= 1:
+            seqs.append([f"graph calc {';'.join(nodes)} {hex(total - 1)},{hex(total - 2)} v:0x1:{hex(m)} v={','.join(hex(v) for v in vals[1:])}"])
+    run.rules.append("input blocks with gaps / other orders / repeated indices; every operator inside tiny graphs on boundary operand pairs and every limb-boundary shift count of large operands; random DAGs over every supported node kind (inputs, Montgomery constants incl. 0/1/253/254/p-1, all duo operators but Pow, Neg, ternary), 1..60 (thorough: 400) nodes, random declared input layouts (contiguous or with gaps, 0..4 named vectors, shuffled supply order), boundary/random input values, random output lists; evaluated by graph::evaluate, by calc_witness through serialize/deserialize_witnesscalc_graph, by the model's single pass and by the recursive reference interpretation; every seventh graph is re-evaluated after a twin of equal encoded length from the same (reused) buffer; chains of up to 2^20+3 (thorough 2^21+5) nodes through the container and calc_witness against the closed form; containers written by the implementation are re-read and re-framed by the model; distinct = distinct op line")
     run.differential("graph-eval", seqs, classify=classify, shrink=False)
     run.differential("graph-store", stores, canon=lambda l, x: x.split(" bytes=")[0], shrink=False)
     # containers produced by the implementation, read by the model's framing code and written back
@@ -105,4 +127,15 @@ def check(run):
             n = len(s[0].split(" ")[2].split(";"))
             refr.append([f"reframe {o.split(' bytes=')[1]} {n}"])
     run.differential("container-framing", refr, shrink=False)
+    # ---- very long graphs (more nodes than any pre-allocation or batching threshold): a chain of n-2 additions through the container
+    #      and calc_witness; the expected value is the closed form x + (n - 2) (input 0 is the constant one)
+    for n in ([65537, (1 << 20) + 3] if quick else [3, 65535, 65536, 65537, (1 << 20) - 1, 1 << 20, (1 << 20) + 1, (1 << 20) + 3, (1 << 21) + 5]):
+        x = rand_fr(rng)
+        line = f"graph bigchain {hex(n)} {hex(x)}"
+        got = core.run_impl(zkh, [line])[0]
+        want = f"nodes={n} same=true out={hex((x + n - 2) % P)}"
+        run.count_case(line)
+        run.cov["traces_validated_against_impl"] += 1
+        if got != want:
+            run.violation({"property": run.pid, "kind": "impl-vs-spec", "stream": "long-graph", "ops": [line], "observed_impl": [got[:200]], "expected_spec": [want]})
     run.confirm_witnesses()
